@@ -488,8 +488,8 @@ type txRec struct {
 	attached bool // the build function added its content (stream not closed)
 	bidx     int  // index of the builder (creation order) it was built into
 	links    []string
-	dead     bool // built after the queue goroutine's final drain (C16: never reported)
-	deadExit bool // built after the queue goroutine has EXITED (C15: reservation nobody releases)
+	dead     bool // built after the queue goroutine took the done branch: must be rejected with Error (coverage only)
+	wipedBy  bool // its reservation was removed by a ReleasePeerMemory while it still held it
 	allocErr bool // its allocation channel delivered an error
 	state    int  // 0 not built, 1 queued/in flight, 2 resolved (sent/failed), 3 discarded (scrubbed)
 	returned atomic.Bool
@@ -527,6 +527,7 @@ type waiter struct {
 	val    error
 	tx     *txRec
 	amount uint64
+	wiped  bool // granted, and then removed by a ReleasePeerMemory before the caller continued
 }
 
 type env struct {
@@ -557,16 +558,22 @@ type env struct {
 	nextExt  int
 
 	relMu       sync.Mutex
-	overRelease []string
+	overRelease [][2]uint64 // (amount, accounted at that moment) of releases larger than what is accounted
 	released    uint64
 	granted     uint64
 
 	sentOrder []int // builder indexes in first-SendMsg order
 	doubled     bool // some block entered one message twice
 	overlap     bool // another queue of the same peer used the allocator
-	wiped       bool // … and its exit wiped this queue's reservations
 	otherHeld   uint64
-	otherSloppy bool
+	// bytes this queue (or a caller of it) still holds although a ReleasePeerMemory -- the exit of
+	// another queue of the same peer, or this queue's own exit while a granted caller had not yet
+	// continued -- removed them from the allocator, plus bytes the simulated other queue released
+	// beyond its holdings.  Releases may exceed what is accounted by at most this much, and the ledger
+	// may be short by at most this much; everything else is checked as usual.
+	wipedPool     uint64
+	stealReported bool
+	sloppy        bool // the SIMULATED other queue released more than it held (an artifact of the script, not of the code)
 	otherChans  []otherAlloc
 	nBuilt    int
 	lastSent  int
@@ -643,7 +650,7 @@ func (a allocWrap) ReleaseBlockMemory(p peer.ID, amount uint64) error {
 	e.relMu.Lock()
 	cur := e.alloc.AllocatedForPeer(p)
 	if amount > cur {
-		e.overRelease = append(e.overRelease, fmt.Sprintf("release of %d bytes while only %d are accounted", amount, cur))
+		e.overRelease = append(e.overRelease, [2]uint64{amount, cur})
 	}
 	e.released += amount
 	e.relMu.Unlock()
@@ -680,9 +687,6 @@ func (e *env) built(tx *txRec, b *messagequeue.Builder, fn func(*messagequeue.Bu
 	tx.buildSeq = e.nBuilt
 	if e.exited.Load() || (e.at != nil && e.at.kind == "relpeer") {
 		tx.dead = true
-	}
-	if e.exited.Load() {
-		tx.deadExit = true
 	}
 	fn(b)
 	if tx.isReq {
@@ -1056,16 +1060,22 @@ func (e *env) observe(res *result, sub int, n note) {
 	}
 }
 
-func (e *env) deadClass(base string) string {
-	if e.wiped {
-		return "overlap-release-wipes-successor"
-	}
+// mark what a ReleasePeerMemory(peer0) that is about to happen removes from under this queue
+func (e *env) markWiped() {
 	for _, t := range e.txs {
-		if t.deadExit {
-			return "dead-queue-" + base
+		if t.state == 1 && !t.wipedBy {
+			t.wipedBy = true
+			e.wipedPool += t.size
 		}
 	}
-	return base
+	for _, w := range e.waiters {
+		w.poll()
+		if w.has && w.val == nil && w.tx != nil && !w.tx.fnRan && !w.wiped {
+			w.wiped = true
+			w.tx.wipedBy = true
+			e.wipedPool += w.amount
+		}
+	}
 }
 
 // C15 ledger at a quiescent point, from the harness's own sizes
@@ -1075,25 +1085,22 @@ func (e *env) checkLedger(res *result) {
 	e.overRelease = nil
 	e.relMu.Unlock()
 	for _, o := range over {
-		if e.otherSloppy {
-			continue // the simulated other queue of this peer released bytes it did not hold
-		}
-		res.fail(e.deadClass("over-release"), "%s (a byte released twice)", o)
-	}
-	var held uint64
-	anyDead := false
-	for _, t := range e.txs {
-		if t.deadExit {
-			anyDead = true
+		d := o[0] - o[1]
+		if d <= e.wipedPool {
+			e.wipedPool -= d // the release of bytes a ReleasePeerMemory had already removed: a no-op
 			continue
 		}
-		if t.state == 1 {
+		res.fail("over-release", "release of %d bytes while only %d are accounted (a byte released twice)", o[0], o[1])
+	}
+	var held uint64
+	for _, t := range e.txs {
+		if t.state == 1 && !t.wipedBy {
 			held += t.size
 		}
 	}
 	for _, w := range e.waiters {
 		w.poll()
-		if w.has && w.val == nil && w.tx != nil && !w.tx.fnRan {
+		if w.has && w.val == nil && w.tx != nil && !w.tx.fnRan && !w.wiped {
 			held += w.amount // granted, transaction not yet continued
 		}
 	}
@@ -1112,29 +1119,41 @@ func (e *env) checkLedger(res *result) {
 			t.sizeSeen = true
 		}
 	}
-	if anyDead || e.exited.Load() || e.wiped || e.otherSloppy {
-		return
-	}
 	idle := e.at == nil && e.blocked() == 0
 	if idle {
 		res.cov = append(res.cov, "state.idle")
-		if got != e.otherHeld && e.overlap {
-			res.fail("idle-nonzero", "queue idle, but AllocatedForPeer = %d and the other queue of this peer holds %d", got, e.otherHeld)
-			return
-		}
-		if got != 0 && !e.overlap {
-			res.fail("idle-nonzero", "queue idle, nothing queued or in flight, but AllocatedForPeer = %d", got)
-			return
-		}
 	}
 	// Exact when every block on the wire belongs to exactly one transaction.  When requests share a
 	// block (dedup), discarding one request keeps the block -- and its reservation -- in the message
-	// for the other, so only the lower bound holds until the message is done.
-	if e.exact && got != held {
-		res.fail("ledger", "AllocatedForPeer = %d but unsent reserved data = %d bytes (reserved %d, released %d)", got, held, e.granted, e.released)
-	}
-	if !e.exact && !e.doubled && got < held {
-		res.fail("ledger", "AllocatedForPeer = %d is less than the unsent reserved data, %d bytes (reserved %d, released %d)", got, held, e.granted, e.released)
+	// for the other, so only the lower bound holds until the message is done; when a block entered one
+	// message twice only the totals at rest are comparable.
+	exact := e.exact || idle || e.exited.Load()
+	switch {
+	case e.doubled && !idle && !e.exited.Load():
+	case got > held && exact:
+		cls := "ledger"
+		if idle {
+			cls = "idle-nonzero"
+		}
+		if e.exited.Load() {
+			cls = "exit-nonzero"
+		}
+		res.fail(cls, "AllocatedForPeer = %d but unsent reserved data = %d bytes (reserved %d, released %d)", got, held, e.granted, e.released)
+	case got+e.wipedPool < held:
+		res.fail("ledger", "AllocatedForPeer = %d is less than the unsent reserved data, %d bytes (reserved %d, released %d; %d bytes removed by ReleasePeerMemory)", got, held, e.granted, e.released, e.wipedPool)
+	case got < held:
+		// short by no more than what a ReleasePeerMemory removed from under a holder: the later release
+		// of those bytes took somebody else's
+		if !e.stealReported {
+			e.stealReported = true
+			if e.sloppy {
+				res.cov = append(res.cov, "overlap.sloppy-other")
+			} else if e.overlap {
+				res.fail("overlap-release-wipes-successor", "AllocatedForPeer = %d while %d reserved bytes are unsent: a ReleasePeerMemory of a queue of this peer removed reservations another holder still had, and their later release took %d bytes of somebody else's", got, held, held-got)
+			} else {
+				res.fail("ledger", "AllocatedForPeer = %d is less than the unsent reserved data, %d bytes, with a single queue", got, held)
+			}
+		}
 	}
 }
 
@@ -1223,25 +1242,12 @@ func (e *env) finalChecks(res *result, finished bool) {
 				res.fail("discarded-unreported", "transaction %d of request %d was discarded but its subscriber %d never got an Error for that request", t.id, t.req, t.sub)
 			}
 		case allowed[s]:
-		case t.dead:
-			res.fail("dead-queue-unreported", "transaction %d (request %d, subscriber %d) was built into message %d after the queue goroutine's final drain: notifications %q, never reported", t.id, t.req, t.sub, t.bidx, s)
 		default:
 			res.fail("unreported", "transaction %d (request %d, subscriber %d) in message %d: notifications %q, not reported sent or failed", t.id, t.req, t.sub, t.bidx, s)
 		}
 	}
-	// dead-queue leak: memory of transactions built after the final drain
-	var deadBytes uint64
-	for _, t := range e.txs {
-		if t.deadExit && t.attached {
-			deadBytes += t.size
-		}
-	}
-	if got := e.alloc.AllocatedForPeer(peer0); got != 0 && e.exited.Load() && !e.overlap {
-		if deadBytes > 0 {
-			res.fail("dead-queue-leak", "queue exited; %d bytes stay accounted to the peer for transactions built after its final drain", got)
-		} else {
-			res.fail("exit-nonzero", "queue exited but AllocatedForPeer = %d", got)
-		}
+	if e.exited.Load() {
+		e.checkLedger(res)
 	}
 }
 
@@ -1273,6 +1279,14 @@ func (e *env) doAck(res *result, r string) {
 		if !e.shutdownDone {
 			e.expectConnect = true
 		}
+	case "relpeer":
+		// the queue's own exit: whatever is still held under this peer's entry is removed.  Nothing of
+		// the queue's own is (drained), but a caller whose reservation was granted and who has not yet
+		// continued loses it, and so does another queue of this peer.
+		e.markWiped()
+		e.pollOther()
+		e.otherHeld = 0
+		e.otherChans = nil
 	}
 	e.release <- r
 }
@@ -1492,37 +1506,26 @@ func runCase(c reg.Case) *result {
 			n, _ := strconv.ParseUint(op[1], 10, 64)
 			e.overlap = true
 			e.pollOther()
-			if n > e.otherHeld {
-				e.otherSloppy = true // the simulated other queue released more than it held
-				n2 := e.otherHeld
+			take := n
+			if cur := e.alloc.AllocatedForPeer(peer0); take > cur {
+				take = cur
+			}
+			if take > e.otherHeld {
+				// the simulated other queue releases more than it holds: it takes this queue's bytes
+				e.sloppy = true
+				e.wipedPool += take - e.otherHeld
 				e.otherHeld = 0
-				_ = n2
 			} else {
-				e.otherHeld -= n
+				e.otherHeld -= take
 			}
 			_ = e.alloc.ReleaseBlockMemory(peer0, n)
 		case "orelpeer":
 			e.overlap = true
 			e.pollOther()
-			var own uint64
-			for _, t := range e.txs {
-				if !t.deadExit && t.state == 1 {
-					own += t.size
-				}
-			}
-			for _, w := range e.waiters {
-				w.poll()
-				if w.has && w.val == nil && w.tx != nil && !w.tx.fnRan {
-					own += w.amount
-				}
-			}
+			e.markWiped()
 			_ = e.alloc.ReleasePeerMemory(peer0)
 			e.otherHeld = 0
 			e.otherChans = nil
-			if own > 0 && !e.exited.Load() {
-				res.fail("overlap-release-wipes-successor", "another queue of the same peer exited: its ReleasePeerMemory removed the peer's allocator entry while this queue still holds %d reserved unsent bytes (AllocatedForPeer = %d)", own, e.alloc.AllocatedForPeer(peer0))
-				e.wiped = true
-			}
 		case "finish":
 			finished = true
 			for i := 0; i < 64; i++ {
@@ -1618,7 +1621,7 @@ func (e *env) noteSend(res *result) {
 	if idx > e.lastSent {
 		// every earlier builder that still has unresolved content should have gone first
 		for _, t := range e.txs {
-			if t.attached && t.state == 1 && t.bidx < idx && !t.dead {
+			if t.attached && t.state == 1 && t.bidx < idx {
 				res.fail("fifo", "message of builder %d sent while builder %d (transaction %d) is still queued", idx, t.bidx, t.id)
 				break
 			}
